@@ -55,7 +55,7 @@ func getIPv6HopByHopJumboLength(hopopts *IPv6HopByHop) (uint32, bool, error) {
 	var tlv *IPv6HopByHopOption
 
 	for _, t := range hopopts.Options {
-		if t.OptionType == IPv6HopByHopOptionJumbogram {
+		if t != nil && t.OptionType == IPv6HopByHopOptionJumbogram {
 			tlv = t
 			break
 		}
@@ -88,7 +88,7 @@ func addIPv6JumboOption(ip6 *IPv6) {
 		ip6.NextHeader = IPProtocolIPv6HopByHop
 	}
 	for _, t := range ip6.HopByHop.Options {
-		if t.OptionType == IPv6HopByHopOptionJumbogram {
+		if t != nil && t.OptionType == IPv6HopByHopOptionJumbogram {
 			tlv = t
 			break
 		}
@@ -491,7 +491,10 @@ func (i *IPv6HopByHop) SerializeTo(b gopacket.SerializeBuffer, opts gopacket.Ser
 	var err error
 
 	o := make([]*ipv6HeaderTLVOption, 0, len(i.Options))
-	for _, v := range i.Options {
+	for n, v := range i.Options {
+		if v == nil {
+			return fmt.Errorf("IPv6HopByHop option %d is nil", n)
+		}
 		o = append(o, (*ipv6HeaderTLVOption)(v))
 	}
 
@@ -731,7 +734,10 @@ func (i *IPv6Destination) SerializeTo(b gopacket.SerializeBuffer, opts gopacket.
 	var err error
 
 	o := make([]*ipv6HeaderTLVOption, 0, len(i.Options))
-	for _, v := range i.Options {
+	for n, v := range i.Options {
+		if v == nil {
+			return fmt.Errorf("IPv6Destination option %d is nil", n)
+		}
 		o = append(o, (*ipv6HeaderTLVOption)(v))
 	}
 
